@@ -41,6 +41,9 @@ def rand_pos(rng):
     return Position(rng.uniform(-40, 40), rng.uniform(5, 120), rng.uniform(-60, 60), rng.uniform(-90, 90), rng.uniform(-90, 90), rng.uniform(-180, 180))
 
 
+_PROV_TURN = [0]
+
+
 def gen_state(rng):
     """-> (HklCalculation, descriptor tuple)"""
     from diffcalc.ub.calc import UBCalculation
@@ -49,7 +52,10 @@ def gen_state(rng):
     with quiet():
         ub = UBCalculation(rng.choice(["ub", "my calc", "x" * 3]))
         lat = rng.choice(LATT)
-        prov = rng.choice(["none", "set_u", "set_ub", "ub_then_lattice", "calc_ub", "miscut", "set_ub_nolattice", "set_ub_othercell", "set_u_sheared"])
+        # how the calculation came by its U / UB: every provenance in turn (none is left to chance in a short run), then at random
+        PROV = ["none", "set_u", "set_ub", "ub_then_lattice", "calc_ub", "miscut", "set_ub_nolattice", "set_ub_othercell", "set_u_sheared"]
+        _PROV_TURN[0] += 1
+        prov = PROV[_PROV_TURN[0] % len(PROV)] if _PROV_TURN[0] % 2 == 0 else rng.choice(PROV)
         if prov == "ub_then_lattice":
             ub.set_ub((rot_from_rotvec([rng.uniform(-1, 1) for _ in range(3)]) * rng.uniform(0.9, 1.7)).tolist())
         if lat is not None and prov != "set_ub_nolattice":
